@@ -71,6 +71,10 @@ def protocol_battery():
     for hdr_, row_ in (("A D_out Y", "1 7 X"), ("D_out", "7"), ("A E_out D", "1 X 3"), ("A D D_out E E_out", "0 1 X Z 2"), ("Y", "X")):
         b.append(Scenario("%s\n%s\n%s\n" % (hdr_, row_, row_), Sbd, default_answer=[0, 0, 0],
                           note="bidirectional signals named only by their _out column (or not at all) are still driven: header %s" % hdr_))
+    # eighth round: a driver error on one call, iteration continued: every later call still carries exactly the row's inputs
+    for k in (1, 2, 3, 4):
+        b.append(Scenario("CLK A Y\n0 1 X\nC 1 X\n0 1 X\n0 0 X\n", S, default_answer=[1, 0], fail_at=[k], stop_on_err=False,
+                          note="driver error at call %d, iteration continued: later calls carry the rows' own inputs and flags" % k))
     # seventh round: a declared signal reads Z / X on one row: that row is an error item after ONE call, no second sample
     Sz = [("in", "A", 1, 0), ("out", "Y", 8)]
     for bad in ("Z", "X"):
@@ -428,6 +432,16 @@ def reads_battery():
                       expect={"items": ["row", "err"]}, note="reading Z is an error item"))
     b.append(Scenario("A Y\n1 X\n(Y) X\n", S, answers={0: [1, 0], 1: ["X", 0]}, default_answer=[0, 0],
                       expect={"items": ["row", "err"]}, note="reading X is an error item"))
+    # eighth round: a zero-trip loop leaves nothing behind that could shadow an output; resetRandom does not forget readings
+    b.append(Scenario("A Y\nloop(Y, 0)\n1 X\nend loop\n(Y) X\n(Y) X\n", S, answers={0: [5, 0], 1: [6, 0]}, default_answer=[0, 0],
+                      expect={"row_inputs": [["5", "0"], ["6", "0"]]}, note="zero-trip loop with a counter named like an output: the output is read afterwards"))
+    b.append(Scenario("A Y\nloop(o,2)\nlet Y = 7;\nloop(z, 0)\n1 X\nend loop\n(Y) X\nend loop\n(Y) X\n(Y) X\n", S,
+                      answers={0: [50, 0], 1: [51, 0], 2: [52, 0], 3: [53, 0]}, default_answer=[0, 0],
+                      expect={"row_inputs": [["7", "0"], ["7", "0"], ["52", "0"], ["53", "0"]]},
+                      note="zero-trip loop nested in a loop whose body shadows an output: after the outer loop the output is read again"))
+    b.append(Scenario("A Y\nresetRandom;\n(Y) X\nresetRandom;\n(Y + 1) X\nlet v = Y;\nresetRandom;\n(v + Y) X\n", S,
+                      answers={0: [5, 0], 1: [6, 0], 2: [7, 0]}, default_answer=[0, 0],
+                      expect={"row_inputs": [["5", "0"], ["7", "0"], ["14", "0"]]}, note="resetRandom keeps the most recent readings"))
     # seventh round: readings wider than the signal (sign-extended, stray high bits) are read as the driver returned them
     Sw = [("in", "A", 64, 0), ("out", "Y", 4), ("out", "DONE", 1)]
     b.append(Scenario("A Y\n(Y) X\n(Y) X\n(Y + 1) X\n", Sw, answers={0: [-3, 0], 1: [29, 0], 2: [-1, 0]}, default_answer=[0, 0],
@@ -975,6 +989,10 @@ def malformed_battery():
         ("A B\n(random(1,2)) 1\n", "wrong number of arguments for random"),
         ("A B\n9223372036854775808 1\n", "literal does not fit in 64 bits"),
         ("A B\n0x10000000000000000 1\n", "hex literal does not fit"),
+        ("A B\n(1) + (0) 1\n", "binary operator between two parenthesised row entries"),
+        ("A B\n(1) - 1 0\n", "binary operator after a parenthesised row entry"),
+        ("A B\n(1) & (1)\n", "operator joining two entries into one (row then too short)"),
+        ("A B C\n(1) * (2) (3) 4\n", "operator between entries, three columns"),
         ("A B\n(Random(4)) 1\n", "function name in the wrong case: Random"),
         ("A B\n(ITE(1,0,1)) 1\n", "function name in the wrong case: ITE"),
         ("A B\n(signext(4,1)) 1\n", "function name in the wrong case: signext"),
@@ -1128,6 +1146,10 @@ def bind_battery():
     b.append(sc("A A_out B\n1 2 0\n", "ok", "column bound twice, every column names a signal", sigs=Sdup, then_run=False))
     Sdup2 = [("bidir", "A", 4, "Z"), ("in", "A_out", 4, 0), ("bidir", "C", 2, "Z"), ("in", "C_out", 2, 0)]
     b.append(sc("A_out C_out U1 U2\n1 2 3 4\n", "err", "two doubly bound columns and two unknown ones", sigs=Sdup2))
+    # eighth round: an outer variable shadowed inside a block is known again after the block
+    b.append(sc("A Y\nlet n = 5;\nrepeat(2) (n) X\n(n) X\n", "ok", "outer n shadowed by a repeat counter and read afterwards"))
+    b.append(sc("A Y\nlet i = 1;\nloop(i, 2)\n(i) X\nend loop\n(i + 1) X\n", "ok", "outer i shadowed by a loop counter and read afterwards"))
+    b.append(sc("A Y\nlet v = 1;\nloop(k, 2)\nlet v = 2;\nloop(j, 1)\nlet v = 3;\n(v) X\nend loop\n(v) X\nend loop\n(v) X\n", "ok", "v re-bound at two loop levels and read after each"))
     # seventh round: `<name>_out` is the read-back COLUMN of a bidirectional signal - not a clock column, not an identifier,
     # and no alias for the column of a plain output or a declared signal
     Sbi = [("bidir", "A", 4, "Z"), ("in", "CLK", 1, 0), ("out", "Y", 8)]
@@ -1192,6 +1214,11 @@ def static_battery():
                           note="another iterator over the same test is dropped after %d rows first" % k))
     b.append(Scenario("A CLK Y Q\nX C 1 2\n", S, mode="both", default_answer=[1, 2], abandon=2, expect={"static": "ok"},
                       note="an iterator dropped in the middle of an X / C expansion leaves nothing behind"))
+    # eighth round: a repeat bound naming the device output n is an output read (the counter does not exist yet)
+    b.append(Scenario("A Y\nrepeat(n + 1) (n) X\n", S + [("out", "n", 8)], mode="both", default_answer=[0, 0, 2], expect={"static": "err"},
+                      note="repeat bound reads the output n"))
+    b.append(Scenario("A Y K M\ndeclare K = 2 + 3;\ndeclare M = K * 0 + 7;\n1 X 5 X\n" if False else "A Y K\ndeclare K = 2 + 3;\n1 X 5\n0 X X\n", S, mode="both",
+                      default_answer=[3, 4], expect={"static": "ok"}, note="a declared signal that reads no output is an expected column of the static rows too"))
     # seventh round: a variable first bound inside a while body, named like an output, used after the while: no output read
     b.append(Scenario("A Y\nlet k = 0;\nwhile(k < 2)\nlet k = k + 1;\nlet Q = k + 5;\n(Q) X\nend while\n(Q) X\n", S, mode="both",
                       default_answer=[40, 50], expect={"static": "ok"}, note="a variable first bound in a while body and named like an output is still a variable after the while"))
@@ -1337,6 +1364,12 @@ def dig_battery():
     t5 = ("cr-blank-first", "\r\n\r\nA Y\r\n1 1\r\n")
     b.append(Scenario(dig_xml(pins, [t5]), [], mode="dig", load="0", default_answer=[0, 0],
                       expect={"dig": "ok", "load": "ok", "tests": [t5], "lines": [4]}, note="CRLF blank lines before the header of a document test"))
+    # eighth round: the signals a test is bound to are the file's, whatever this test's own header uses; two tests may read back the same pin
+    b.append(Scenario(dig_xml(pins, [bd1, bd2]), [], mode="dig", load="1", default_answer=[0, 0, 0],
+                      expect={"dig": "ok", "signals": sigs_b, "load": "ok", "row_expected": [["X", "1", "X"]]},
+                      note="D is bidirectional because of the other test: this test still reports its read-back as X"))
+    b.append(Scenario(dig_xml(pins, [bd1, ("rb2", "A D D_out Y\n1 2 X 1\n")]), [], mode="dig", load="1", default_answer=[0, 0, 0],
+                      expect={"dig": "ok", "signals": sigs_b, "load": "ok"}, note="two tests read back the same pin"))
     # seventh round: load by index is by position, also among tests that share a label (or have none)
     dup = [("same", "A Y\n1 1\n"), ("same", "A Y\n2 2\n"), ("same", "A Y\n3 3\n")]
     for k in (1, 2):
